@@ -334,25 +334,30 @@ def operand_str(a):
 
 
 class Facts:
-    def __init__(self, path):
+    def __init__(self, path, parts=None):
         self.path = path
         self.header = None
         self.bodies = {}      # def path -> Body
         self.adts = {}        # path -> dict
         self.impls = []       # dicts
         self.consts = {}      # path -> (ty, val)
-        with open(path) as fh:
-            for l in fh:
-                d = json.loads(l)
-                if 'fn' in d:
-                    nm = d['fn']; k = 1
-                    while nm in self.bodies:
-                        k += 1; nm = '%s#%d' % (d['fn'], k)
-                    d['fn'] = nm; self.bodies[nm] = Body(d)
-                elif 'adt' in d: self.adts[d['adt']] = d
-                elif 'impl' in d: self.impls.append(d)
-                elif 'const' in d: self.consts[d['const']] = (d['ty'], d['val'])
-                elif 'header' in d: self.header = d
+        self.norm_stats = None
+        if parts is not None:
+            self.header, body_dicts, self.adts, self.impls, self.consts = parts
+            for d in body_dicts: self.bodies[d['fn']] = Body(d)
+        else:
+            with open(path) as fh:
+                for l in fh:
+                    d = json.loads(l)
+                    if 'fn' in d:
+                        nm = d['fn']; k = 1
+                        while nm in self.bodies:
+                            k += 1; nm = '%s#%d' % (d['fn'], k)
+                        d['fn'] = nm; self.bodies[nm] = Body(d)
+                    elif 'adt' in d: self.adts[d['adt']] = d
+                    elif 'impl' in d: self.impls.append(d)
+                    elif 'const' in d: self.consts[d['const']] = (d['ty'], d['val'])
+                    elif 'header' in d: self.header = d
         for b in self.bodies.values(): b.facts = self
         self._by_hdr = collections.defaultdict(list)
         for b in self.bodies.values():
@@ -362,6 +367,21 @@ class Facts:
         self._closures = collections.defaultdict(list)
         for b in self.bodies.values():
             if b.kind == 'closure': self._closures[b.parent].append(b)
+
+    def normalized(self, known_fns, loops=True):
+        """the same program in normal form (sa.normalize): helpers unknown on the pinned tree inlined,
+        iterator chains with closures rewritten as explicit loops"""
+        from . import normalize
+        dicts, stats = normalize.normalized_dicts(self, known_fns, loops)
+        F2 = Facts(self.path, parts=(self.header, dicts, self.adts, self.impls, self.consts))
+        gone = set(stats.pop('inlined_closures', []))
+        F2.norm_stats = stats
+        F2.raw = self
+        F2.inlined_closures = gone
+        # closures whose body now stands at the place of the adaptor call are no longer "closures of" the function
+        for k in list(F2._closures):
+            F2._closures[k] = [b for b in F2._closures[k] if b.name not in gone]
+        return F2
 
     # ---- lookups keyed on the structured header, never on rendered strings
     def method(self, self_ty, item, trait=None, targs=None):
